@@ -99,6 +99,10 @@ def c08(ctx):
     for i in range(n):
         es = [T.rentry(r) for _ in range(r.randint(0, 6))]
         cases.append(es)
+    # two Manifests whose text is well above every buffer size (hundreds of entries, > 64 KiB)
+    r_big = __import__('random').Random(ctx.seed if isinstance(ctx.seed, int) else 1)
+    for k in (450, 900):
+        cases.append([T.rentry(r_big) for _ in range(k)])
     for sort in (0, 1):
         reqs = [['dump', es, sort] for es in cases]
         im = [impl.dump(es, sort) for es in cases]
